@@ -76,7 +76,7 @@ def run_all(tier):
     by_feature = {}
     for s in scen:
         by_feature.setdefault(s.get("feature", ""), []).append(s)
-    results = {"violations": [], "events": 0, "runs": 0, "states": 0, "scenarios": len(scen), "truncated": 0, "samples": [], "tags": {}}
+    results = {"violations": [], "events": 0, "runs": 0, "states": 0, "scenarios": len(scen), "truncated": 0, "samples": [], "tags": {}, "crashes": []}
     max_dfs = 300 if tier == "quick" else 3000
     for feat, scs in sorted(by_feature.items()):
         exe = _exe([feat] if feat else [])
@@ -87,8 +87,13 @@ def run_all(tier):
         for mode, mx, sd in passes:
             tp = os.path.join(wd, f"trace_{feat or 'default'}_{mode}.ndjson")
             p = sh([exe, "run", sp, tp, "--mode", mode, "--max", str(mx), "--seed", str(sd)], timeout=3000)
+            if p.returncode < 0 or p.returncode in (101, 134):
+                # the process was killed by a signal / aborted: a panic that cannot unwind or memory corruption inside the runtime
+                # under test (the harness itself catches ordinary panics per scenario).  Nothing of this pass can be judged.
+                results["crashes"].append({"feature": feat, "mode": mode, "rc": p.returncode, "stderr": p.stderr[-600:]})
+                continue
             if p.returncode not in (0, 3):
-                raise ToolError(f"async-mock crashed (rc={p.returncode}) on feature set {feat!r} mode {mode}: {p.stderr[-400:]}")
+                raise ToolError(f"async-mock failed (rc={p.returncode}) on feature set {feat!r} mode {mode}: {p.stderr[-400:]}")
             summary = json.loads(open(tp).readlines()[-1])
             results["runs"] += summary["runs"]
             results["truncated"] += summary["truncated"]
@@ -136,6 +141,10 @@ def run_property(pid, tier):
     t0 = time.time()
     res = run_all(tier)
     out = Outcome(pid)
+    for c in res["crashes"]:
+        # no property of the runtime can be judged on a run in which it brings the process down
+        out.violation(f"crash:{c['feature'] or 'default'}:{c['mode']}", f"the runtime aborted the test process (rc={c['rc']}) while the scenario families of feature set "
+                      f"{c['feature']!r} ran ({c['mode']}): {c['stderr'][-300:]}", c)
     for v in res["violations"]:
         if v["tag"] == "DRIFT":
             raise ToolError(f"mock host and CMHost.tla disagree about a trap: {v}")
